@@ -22,7 +22,9 @@ RULE = ("random networks of 2-7 nodes (45% complete), periods 0.5-3, dissipation
         "set-up and after every firing: exactly one pending event per node (ids in bijection with nodes), due within one period (+ half a unit of the fifth "
         "decimal), the fired node due exactly one period later; at the end the firing log against the tap stream and the phase range; on complete networks the "
         "number of distinct phases never increases and the largest group never shrinks. non-trivial = >= 2 nodes firing and >= 4 events; distinct = distinct spec")
-PARTIAL = ["the monotonicity of synchrony on complete networks is checked on the real code by the oracle and rests in Lean on cascade_function (a bumped node's "
+PARTIAL = ["'due no more than one period ahead' is a theorem (firePosted_sched) under two stated hypotheses on the arithmetic (a computed firing time never "
+           "exceeds ub t = one rounded period after t; ub is monotone): facts about doubles that are exercised by the oracle, not proved",
+           "the monotonicity of synchrony on complete networks is checked on the real code by the oracle and rests in Lean on cascade_function (a bumped node's "
            "new firing time is a function of the time and its old firing time only); the counting argument over groups is not a theorem",
            "floating-point facts about the return map (range, monotonicity) are not theorems"]
 
